@@ -2,7 +2,7 @@
 from typing import Optional
 
 from metapype.model.node import Node
-from harness.hlib import SHAPES, build, nodes, snap, count, part, bound
+from harness.hlib import fresh, SHAPES, build, nodes, snap, count, part, bound
 
 _P = part(2)            # pinned per process: shape index + 100 * field (field 99 = symbolic field)
 SH = _P % 100
@@ -46,7 +46,7 @@ def h_one_field(node: int, val: Optional[str]) -> str:
     post: _ == ""
     """
     field = FIELD
-    Node.store.clear()
+    fresh()
     shape = SHAPES[SH]
     a = build(shape, "a")
     b = build(shape, "b")
@@ -67,7 +67,7 @@ def h_shape_change(node: int, kind: int, flip: bool) -> str:
     pre: 0 <= node < 5 and 0 <= kind < 4
     post: _ == ""
     """
-    Node.store.clear()
+    fresh()
     shape = SHAPES[SH]
     a = build(shape, "a")
     b = build(shape, "b")
@@ -99,7 +99,7 @@ def h_copy_then_edit(node: int, val: Optional[str], edit_copy: bool) -> str:
     post: _ == ""
     """
     field = FIELD
-    Node.store.clear()
+    fresh()
     shape = SHAPES[SH]
     a = build(shape, "a")
     c = a.copy()
